@@ -25,9 +25,9 @@ Contract(U_, 'URLInfo.parse_ipv6_hostname', {'cls': TAny(), 'hostname': TStr()},
          ensures=[('charset', 'in_re(result, "[0-9a-f:.]+")')], raises=dict(VE))
 NOBR = lambda e: 'not ("[" in %s) and not ("]" in %s) and not (" " in %s) and not ("/" in %s) and not ("@" in %s) and not ("?" in %s) and not ("#" in %s)' % ((e,) * 7)
 Contract(U_, 'URLInfo.parse_hostname', {'cls': TAny(), 'hostname': TStr()}, ret=TStr(), prop='C11/C10',
-         ensures=[('no-delimiters', NOBR('result'))], raises=dict(VE))
+         ensures=[('no-delimiters', NOBR('result')), ('ascii', 'in_re(result, "[\\x00-\\x7f]*")')], raises=dict(VE))
 Contract(U_, 'URLInfo.parse_host', {'cls': TAny(), 'host': TStr()}, ret=TTuple(TStr(), TOpt(TInt())), prop='C11/C10',
-         ensures=[('port-range', 'implies(result[1] is not None, 0 <= result[1] and result[1] <= 65535)'), ('no-delimiters', NOBR('result[0]'))], raises=dict(VE))
+         ensures=[('port-range', 'implies(result[1] is not None, 0 <= result[1] and result[1] <= 65535)'), ('no-delimiters', NOBR('result[0]')), ('ascii', 'in_re(result[0], "[\\x00-\\x7f]*")')], raises=dict(VE))
 Contract(U_, 'URLInfo.parse_authority', {'cls': TAny(), 'authority': TStr()}, ret=TTuple(TStr(), TStr()), prop='C11', ensures=[], raises={})
 Contract(U_, 'URLInfo.parse_userinfo', {'cls': TAny(), 'userinfo': TStr()}, ret=TTuple(TStr(), TStr()), prop='C11', ensures=[], raises={})
 
@@ -40,7 +40,9 @@ lib.MODULE_CONSTS['_percent_encoder_map_cache'] = VRef(z3.IntVal(1), 'PECache')
 lib.BUILTINS['super'] = lambda ex, st, node: lib.VSuper()
 MISSING = [('escape-or-plain', 'in_re(result, "%[0-9A-F][0-9A-F]|[\\x20-\\x7e]")'),
            ('plain-iff', '(len(result) == 1) == (32 <= char and char <= 126 and not (char in self.encode_set))'),
-           ('plain-is-char', 'implies(len(result) == 1, result == chr(char))')]
+           ('plain-is-char', 'implies(len(result) == 1, result == chr(char))'),
+           ('plain-class', 'implies(len(result) == 1 and char != 32, in_re(result, "[\\x21-\\x7e]"))'),
+           ('escape-class', 'implies(len(result) != 1, in_re(result, "%[0-9A-F][0-9A-F]"))')]
 Assumed('<collections.defaultdict>', 'PercentEncoderMap.__setitem__', {'self': TObj('PercentEncoderMap'), 'k': TInt(), 'v': TStr()}, raises={}, note='memo table store')
 Contract(U_, 'PercentEncoderMap.__init__', {'self': TObj('PercentEncoderMap'), 'encode_set': ISET}, prop='C10/C11', modifies=['self.encode_set'],
          ensures=[('set', 'self.encode_set == encode_set')], raises={})
@@ -55,8 +57,9 @@ Assumed('<dict>', 'PECache.__getitem__', {'self': TObj('PECache'), 'key': ISET},
 Assumed('<dict>', 'PECache.__setitem__', {'self': TObj('PECache'), 'key': ISET, 'value': TAny()}, raises={})
 # library lemma (concatenation closure): joining pieces that each lie in R gives a string in R*
 ESC = z3.Concat(z3.Re('%'), z3.Union(z3.Range('0', '9'), z3.Range('A', 'F')), z3.Union(z3.Range('0', '9'), z3.Range('A', 'F')))
-lib.JOIN_ELEMENT_CLASSES.append(z3.Union(ESC, z3.Range(chr(0x20), chr(0x7e))))
-lib.JOIN_ELEMENT_CLASSES.append(z3.Union(ESC, z3.Range(chr(0x21), chr(0x7e))))
+# (R, T): pieces in R  =>  join in T*   (R is a sub-language of T*)
+lib.JOIN_ELEMENT_CLASSES.append((z3.Union(ESC, z3.Range(chr(0x20), chr(0x7e))), z3.Range(chr(0x20), chr(0x7e))))
+lib.JOIN_ELEMENT_CLASSES.append((z3.Union(ESC, z3.Range(chr(0x21), chr(0x7e))), z3.Range(chr(0x21), chr(0x7e))))
 lib.UPPER_CLOSED_CLASSES.append(z3.Range(chr(0x20), chr(0x7e)))
 lib.UPPER_CLOSED_CLASSES.append(z3.Range(chr(0x21), chr(0x7e)))
 PRINT = '"[\\x21-\\x7e]*"'
@@ -70,14 +73,27 @@ Contract(U_, 'percent_encode', {'text': TStr(), 'encode_set': ISET, 'encoding': 
 CONTRACTS['percent_encode'].ensures.append(Clause(':encodable', 'encodable(text, encoding)'))
 Contract(U_, 'percent_encode_plus', {'text': TStr(), 'encode_set': ISET, 'encoding': TStr()}, ret=TStr(), prop='C10/C11',
          defaults={'encode_set': QSET, 'encoding': 'utf-8'}, requires=ENC,
-         ensures=[('printable-no-space', 'in_re(result, %s)' % PRINT, {'C10'}), ('encodable', 'encodable(text, encoding)')],
-         raises={'UnicodeEncodeError': ['not encodable(text, encoding)']})
+         ensures=[('printable', 'in_re(result, %s)' % PRINTSP, {'C10'}), ('space-replaced', 'implies(" " in text, in_re(result, %s))' % PRINT, {'C10'}),
+                  ('no-space-if-encoded', 'implies(32 in encode_set, in_re(result, %s))' % PRINT, {'C10'}), ('encodable', 'encodable(text, encoding)')],
+         raises={'UnicodeEncodeError': ['not encodable(text, encoding)']},
+         note='"no space in the result when the text has none" needs an ASCII-transparent codec (a byte 0x20 inside a multi-byte character): bounded part')
 Contract(U_, 'uppercase_percent_encoding', {'text': TStr()}, ret=TStr(), prop='C10/C11',
-         ensures=[('charset-kept', 'implies(in_re(text, %s), in_re(result, %s))' % (PRINT, PRINT), {'C10'}), ('length', 'len(result) == len(text)', {'C10'})], raises={})
+         ensures=[('charset-kept', 'implies(in_re(text, %s), in_re(result, %s))' % (PRINT, PRINT), {'C10'}),
+                  ('charset-kept-sp', 'implies(in_re(text, %s), in_re(result, %s))' % (PRINTSP, PRINTSP), {'C10'}), ('length', 'len(result) == len(text)', {'C10'})], raises={})
+_nu = z3.Function('spec_normalize_username', z3.StringSort(), z3.StringSort(), z3.StringSort())
+_np = z3.Function('spec_normalize_password', z3.StringSort(), z3.StringSort(), z3.StringSort())
+SPECFUNS['norm_user'] = lambda ex, st, t, e: VStr(_nu(t.term, e.term))
+SPECFUNS['norm_pw'] = lambda ex, st, t, e: VStr(_np(t.term, e.term))
 for _fn in ('normalize_query', 'normalize_fragment', 'normalize_username', 'normalize_password'):
     Contract(U_, _fn, {'text': TStr(), 'encoding': TStr()}, ret=TStr(), prop='C10/C11', defaults={'encoding': 'utf-8'}, requires=ENC,
-             ensures=[('printable-no-space', 'in_re(result, %s)' % PRINT, {'C10'}), ('encodable', 'encodable(text, encoding)')],
+             ensures=[('printable', 'in_re(result, %s)' % (PRINTSP if _fn == 'normalize_query' else PRINT), {'C10'}), ('encodable', 'encodable(text, encoding)')],
              raises={'UnicodeEncodeError': ['not encodable(text, encoding)']})
+Assumed(U_, 'normalize_username', {'text': TStr(), 'encoding': TStr()}, name='normalize_username@call', ret=TStr(), defaults={'encoding': 'utf-8'}, requires=ENC,
+        ensures=['result == norm_user(text, encoding)', 'in_re(result, %s)' % PRINT, 'encodable(text, encoding)'], raises={'UnicodeEncodeError': ['not encodable(text, encoding)']},
+        note='call-site view of normalize_username: its verified postconditions plus a NAME for its result (the function is deterministic)')
+Assumed(U_, 'normalize_password', {'text': TStr(), 'encoding': TStr()}, name='normalize_password@call', ret=TStr(), defaults={'encoding': 'utf-8'}, requires=ENC,
+        ensures=['result == norm_pw(text, encoding)', 'in_re(result, %s)' % PRINT, 'encodable(text, encoding)'], raises={'UnicodeEncodeError': ['not encodable(text, encoding)']},
+        note='call-site view of normalize_password')
 
 # ---- flatten_path / normalize_path (C10: dot-segment lemma) ----------------------------------------------------------------------
 _fp = Contract(U_, 'flatten_path', {'path': TStr(), 'flatten_slashes': TBool()}, ret=TStr(), prop='C10/C11', defaults={'flatten_slashes': False},
@@ -109,18 +125,25 @@ WELLFORMED = ['(%s)' % ' or '.join('self.scheme == "%s"' % s_ for s_ in SCHEMES)
               'implies(self.hostname is not None, self.port is not None and self.query is not None and self.host is not None and self.username is not None and self.password is not None and truthy(self.hostname))',
               'implies(self.port is not None, 0 <= self.port and self.port <= 65535)',
               'implies(self.hostname is not None, %s)' % NOBR('self.hostname'),
-              'implies(self.hostname is not None, encodable(self.username, "utf-8") and encodable(self.password, "utf-8"))']
-Contract(U_, 'URLInfo.parse', {'cls': TAny(), 'url': TOpt(TStr()), 'default_scheme': TStr(), 'encoding': TStr()}, ret=TOpt(TObj('URLInfo')), prop='C11/C10', shards=8,
+              'implies(self.hostname is not None, encodable(self.username, self.encoding) and encodable(self.password, self.encoding))',
+              'valid_codec(self.encoding)',
+              'implies(self.hostname is not None, in_re(self.path, %s))' % PRINT, 'implies(self.hostname is not None, in_re(self.query, %s))' % PRINTSP,
+              'implies(self.hostname is not None, in_re(self.hostname, "[\\x00-\\x7f]*"))']
+Contract(U_, 'URLInfo.parse', {'cls': TAny(), 'url': TOpt(TStr()), 'default_scheme': TStr(), 'encoding': TStr()}, ret=TOpt(TObj('URLInfo')), prop='C11/C10', shards=14,
          note='default_scheme is a str (the only caller-supplied value is the default "http"); with default_scheme=None, "localhost:80" yields scheme None',
          defaults={'default_scheme': 'http', 'encoding': 'utf-8'}, requires=ENC,
          ensures=[('none-iff', '(result is None) == (url is None)'),
-                  ('wellformed', 'implies(result is not None, %s)' % ' and '.join('(%s)' % w.replace('self.', 'result.') for w in WELLFORMED)),
+                  ] + [('wellformed%d' % k, 'implies(result is not None, %s)' % w.replace('self.', 'result.')) for k, w in enumerate(WELLFORMED)] + [
                   ('scheme-lower-known', 'implies(result is not None and result.hostname is not None, %s)' % NET, {'C10'}),
-                  ('path-charset', 'implies(result is not None and result.hostname is not None, in_re(result.path, %s) and in_re(result.query, %s))' % (PRINT, PRINT), {'C10'}),
-                  ('path-absolute', 'implies(result is not None and result.hostname is not None, startswith(result.path, "/"))', {'C10'})],
+                  ('path-charset', 'implies(result is not None and result.hostname is not None, in_re(result.path, %s) and in_re(result.query, %s))' % (PRINT, PRINTSP), {'C10'}),
+                  ],
          raises={k: ['url is not None'] for k in VE})
 
 # ---- accessors on a parsed URLInfo (class invariant WELLFORMED = what parse establishes) ----------------------------------------
+UI = '((norm_user(self.username, self.encoding) if truthy(self.username) else "") + ((":" + norm_pw(self.password, self.encoding)) if truthy(self.password) else "") + ("@" if truthy(self.username) or truthy(self.password) else ""))'
+HOSTP = '(("[" + self.hostname + "]") if (truthy(self.host) and startswith(self.host, "[")) else self.hostname)'
+PORTP = '("" if default_port(self.scheme) == self.port else ":" + str_of_int(self.port))'
+QP = '(("?" + self.query) if truthy(self.query) else "")'
 SU = {'self': TObj('URLInfo')}
 NETSELF = '(%s)' % ' or '.join('self.scheme == "%s"' % s_ for s_ in SCHEMES)
 Contract(U_, 'URLInfo.is_ipv6', SU, ret=TOpt(TBool()), prop='C11/C10', requires=WELLFORMED, ensures=[('ref', 'truthy(result) == (truthy(self.host) and startswith(self.host, "["))')], raises={})
@@ -130,7 +153,12 @@ HWP = Contract(U_, 'URLInfo.hostname_with_port', SU, ret=TStr(), prop='C11/C10',
          ensures=[('non-network-empty', 'implies(not %s, result == "")' % NETSELF)], raises={}, replay='url:replay_accessor', observe=['self.raw'])
 Contract(U_, 'URLInfo.url', SU, ret=TStr(), prop='C11/C10', requires=WELLFORMED, is_property=True,
          modifies=['self._url'],
-         ensures=[('cached', 'self._url == result')], raises={}, replay='url:replay_accessor', observe=['self.raw'])
+         ensures=[('cached', 'self._url == result'),
+                  ('non-network-raw', 'implies(old(self._url) is None and not %s, result == self.raw)' % NETSELF, {'C10'}),
+                  # reassembly lemma (C10): scheme, user info, bracketed IPv6 host, port ONLY IF non-default, path, query
+                  ('reassembly', 'implies(old(self._url) is None and %s, result == self.scheme + "://" + %s + %s + %s + self.path + %s)' % (NETSELF, UI, HOSTP, PORTP, QP), {'C10'}),
+                  ('ascii', 'implies(old(self._url) is None and %s, in_re(result, "[\\x00-\\x7f]*"))' % NETSELF, {'C10'})],
+         raises={}, replay='url:replay_accessor', observe=['self.raw'])
 Contract(U_, 'URLInfo.query_map', SU, ret=TAny(), prop='C11', requires=WELLFORMED, is_property=True, modifies=['self._query_map'], ensures=[], raises={}, replay='url:replay_accessor', observe=['self.raw'])
 Contract(U_, 'split_query', {'qs': TStr(), 'keep_blank_values': TBool()}, ret=TList(TAny()), prop='C11', defaults={'keep_blank_values': False},
          locals={'items': TList(TAny())}, ensures=[], raises={}, note='the items are pairs (str, Optional[str]): element structure not modelled')
@@ -154,3 +182,7 @@ Contract(U_, 'urljoin', {'base_url': TStr(), 'url': TStr(), 'allow_fragments': T
 Contract('wpull/scraper/util.py', 'urljoin_safe', {'base_url': TStr(), 'url': TStr(), 'allow_fragments': TBool()}, ret=TOpt(TStr()), prop='C11',
          defaults={'allow_fragments': True}, ensures=[], raises={}, eval_log_args=True)
 lib.MODFUNCS['wpull.url.urljoin'] = lambda ex, st, node, *a, **k: ex.call(CONTRACTS['urljoin'], list(a), k, st, node)
+
+SPECFUNS['default_port'] = lambda ex, st, sch: lib.const_dict_lookup(lib.MODULE_CONSTS['RELATIVE_SCHEME_DEFAULT_PORTS'], sch, VInt(0))
+# inside url.py the two normalisers are called by name: resolve those calls to the call-site views above
+CONTRACTS['URLInfo.url'].names.update({'normalize_username': 'normalize_username@call', 'normalize_password': 'normalize_password@call'})
